@@ -292,6 +292,8 @@ def register(reg):
     atc.modifies = frozenset(set(atc.modifies) | set(TD_COMPS))
     base_ensures = atc.ensures
     atc.ensures = lambda F, _b=base_ensures: list(_b(F)) + AddTeardownCallbackTokens.ensures(F)
+    base_raises = atc.raises
+    atc.raises = lambda F, _b=base_raises: list(_b(F)) + [("token:unchanged", F.same(*TD_COMPS))]
     atc.ghost_exit = AddTeardownCallbackTokens.ghost_exit
     atc.uses_invariants = ("I-td:teardown-lists-are-token-stacks",)
     ar = reg.specs["_context.Context.add_resource"]
